@@ -234,6 +234,23 @@ def oracle(case, stats):
             raise Violation("surviving-bonds", "bonds between surviving atoms (original numbering): expected %r, result has %r" % (want_b, got_b))
         if len(res) != len(new.positions) or len(new.charges) != len(new.positions):
             raise Violation("array-lengths", "inconsistent per-atom arrays")
+    # the same objects used again with the ignore flag flipped: the outcome must follow the flag of *this* call
+    flag2 = not case["ignore"]
+    raised2 = None
+    try:
+        mf.replace(s, sp, rp, atol, case["hints"], case["seeds"], replace_fraction=f, replace_all=case["replace_all"],
+                   ignore_atoms_should_not_be_deleted_twice=flag2)
+    except AtomsShouldNotBeDeletedTwice as e:
+        raised2 = e
+    except Exception as e:
+        raised2 = e
+        if empty or flag2 or not some_conflict:
+            raise Violation("unexpected-exception", "second call (ignore=%s): %s: %r" % (flag2, type(e).__name__, e))
+    if raised2 is not None and (flag2 or empty or not some_conflict):
+        raise Violation("raised-despite-ignore" if flag2 else "false-refusal", "second call on the same objects with ignore=%s raised" % flag2)
+    if raised2 is None and not flag2 and not empty and f == 1.0 and not avoidable:
+        raise Violation("overlap-not-refused", "second call on the same objects with ignore=False returned a structure although "
+                        "matches %r remove an atom twice" % (keys,))
     stats.count("kind:" + case["meta"]["kind"])
     stats.count("repl:" + case["meta"]["repl_kind"])
     stats.count("replace_all:%s" % case["replace_all"])
